@@ -67,3 +67,18 @@ func (e *Executor) statusOnSuccess(t *ast.Task) error {
 	}
 	return nil
 }
+
+func (e *Executor) statusOnStart(t *ast.Task) error {
+	method := t.Method
+	if method == "" {
+		method = e.Taskfile.Method
+	}
+	checker, err := fingerprint.NewSourcesChecker(method, e.TempDir.Fingerprint, e.Dry)
+	if err != nil {
+		return err
+	}
+	if recorder, ok := checker.(fingerprint.StartRecorder); ok {
+		return recorder.OnStart(t)
+	}
+	return nil
+}
